@@ -288,6 +288,120 @@ func toLarge(b []byte) []byte {
 	return cat(u32(1), b[4:8], u64(uint64(len(b)+8)), b[8:])
 }
 
+// ---------------------------------------------------------------- counts solving the size guard modulo 2^K
+// A guard `hdr.Size != h + count*e` bounds the count only while the right-hand side is computed without
+// wrap-around.  If the product / sum is carried out in a narrower type (uint16, int32, uint32) before it is
+// widened, every count c with (h + c*e) mod 2^K == hdr.Size passes and the table is allocated from c.
+// For each variant: e = the length difference between the bodies with 3 and with 2 real entries (so the per-entry
+// size that flags / versions / default lengths select is measured, not assumed), h = L - 2e; target sizes
+// S = L (consistent box) and L+-4, L+8 (residues that no honest count reaches); K = 16, 31, 32.
+// e*c = S-h (mod 2^K) has solutions iff g = gcd(e, 2^K) divides S-h; then c = c0 + j*2^K/g.
+// For the other 16/32-bit fields (default lengths, per-entry sizes: the other factor of a nested product) and for
+// counts with per-entry size 0 the multiplier is not known: the values cur + j*2^(K-v), v = 0..4, keep
+// h + value*e unchanged modulo 2^K for every e with 2-adic valuation <= v.
+const solveMark = "/solve:"
+
+// invOdd: inverse of the odd a modulo 2^64 (Newton iteration)
+func invOdd(a uint64) uint64 {
+	x := a
+	for i := 0; i < 6; i++ {
+		x *= 2 - a*x
+	}
+	return x
+}
+
+// progression: members of {c0 + j*m} below 2^(8*width): all when at most 6, else the smallest, the largest and two in between
+func progression(c0, m uint64, width int) []uint64 {
+	lim := uint64(1) << (8 * uint(width))
+	if m == 0 || c0 >= lim {
+		return nil
+	}
+	n := (lim - 1 - c0) / m // j = 0..n
+	if n < 6 {
+		var o []uint64
+		for j := uint64(0); j <= n; j++ {
+			o = append(o, c0+j*m)
+		}
+		return o
+	}
+	return []uint64{c0, c0 + (n/3)*m, c0 + (2*n/3)*m, c0 + n*m}
+}
+
+func solveCases(v cvariant, e int, emit func(desc string, d []byte)) {
+	L := len(v.bytes)
+	resize := func(S int) []byte {
+		d := append([]byte(nil), v.bytes...)
+		for len(d) < S {
+			d = append(d, 0, 0, 0, 1)
+		}
+		d = d[:S]
+		binary.BigEndian.PutUint32(d, uint32(S))
+		return d
+	}
+	for _, f := range v.fields {
+		if f.width < 2 || f.off+f.width > L {
+			continue
+		}
+		cur := uint64(0)
+		for i := 0; i < f.width; i++ {
+			cur = cur<<8 | uint64(v.bytes[f.off+i])
+		}
+		known := f.what == "count" && e > 0
+		for _, K := range []uint{16, 31, 32} {
+			if K > 8*uint(f.width) {
+				continue
+			}
+			if known {
+				h := L - int(cur)*e
+				tz := uint(bits.TrailingZeros64(uint64(e)))
+				if tz > K {
+					tz = K
+				}
+				for _, S := range []int{L, L + 4, L + 8, L - 4} {
+					if S < f.off+f.width || S-h < 0 || uint64(S-h)&(1<<tz-1) != 0 {
+						continue // too short to hold the field / gcd(e, 2^K) does not divide the residue: no solution
+					}
+					m := uint64(1) << (K - tz)
+					c0 := (uint64(S-h) >> tz) * invOdd(uint64(e)>>tz) & (m - 1)
+					if S == L && c0 == cur {
+						c0 += m // the honest count itself: start at the next solution
+					}
+					base := resize(S)
+					for _, c := range progression(c0, m, f.width) {
+						d := putField(base, f, c)
+						emit(fmt.Sprintf("%s=%d/size%+d/mod2^%d", f.what, c, S-L, K), d)
+						if K == 32 {
+							emit(fmt.Sprintf("%s=%d/size%+d/mod2^%d/large", f.what, c, S-L, K), toLarge(d))
+						}
+					}
+				}
+				continue
+			}
+			for tz := uint(0); tz <= 4; tz++ {
+				m := uint64(1) << (K - tz)
+				c0 := cur & (m - 1)
+				if c0 == cur {
+					c0 += m
+				}
+				for _, c := range progression(c0, m, f.width) {
+					if c != cur {
+						emit(fmt.Sprintf("%s=%d/keeps-mod2^%d/e~2^%d", f.what, c, K, tz), putField(v.bytes, f, c))
+					}
+				}
+			}
+		}
+	}
+}
+
+// solveGroup: cases of this stream carry a group (box type): once three inputs of a group have failed on a job
+// kind the remaining ones of that group and kind are skipped (each costs up to a 6 GiB allocation and a worker restart)
+func solveGroup(c ccase) string {
+	if strings.Contains(c.desc, solveMark) && len(c.data) >= 8 {
+		return fmt.Sprintf("solve-%x", c.data[4:8])
+	}
+	return ""
+}
+
 type ccase struct {
 	desc string
 	data []byte
@@ -304,8 +418,9 @@ func countCases(big bool) []ccase {
 			out = append(out, ccase{desc, d, nest})
 		}
 	}
+	v3 := countVariants(3)
 	for _, k := range []int{2, 0, 1, 3} {
-		for _, v := range countVariants(k) {
+		for i, v := range countVariants(k) {
 			d0 := fmt.Sprintf("%s/%s/k%d", v.box, v.tag, k)
 			emit(d0, v.bytes, v.nest)
 			emit(d0+"/large", toLarge(v.bytes), v.nest)
@@ -346,6 +461,10 @@ func countCases(big bool) []ccase {
 						}
 					}
 				}
+			}
+			// counts that SOLVE the size guard in truncated arithmetic (see solveCases)
+			if i < len(v3) && v3[i].box == v.box && v3[i].tag == v.tag {
+				solveCases(v, len(v3[i].bytes)-len(v.bytes), func(desc string, d []byte) { emit(d0+solveMark+desc, d, v.nest) })
 			}
 			for _, f := range v.fields {
 				cur := 0
@@ -561,7 +680,7 @@ func corrSenc() {
 		if len(c.data) >= 16 && string(c.data[4:8]) == "senc" {
 			for _, iv := range []int{0, 8, 16, 1} {
 				for _, path := range []string{"R", "S"} {
-					jobs = append(jobs, job{kind: "Q", cfg: fmt.Sprintf("%s%d", path, iv), data: c.data})
+					jobs = append(jobs, job{kind: "Q", cfg: fmt.Sprintf("%s%d", path, iv), data: c.data, grp: solveGroup(c)})
 					sel = append(sel, c)
 				}
 			}
@@ -569,6 +688,9 @@ func corrSenc() {
 	}
 	res := runJobs(jobs, nprocs())
 	for i, j := range jobs {
+		if res[i] == skipped {
+			continue
+		}
 		f := strings.Split(res[i], "\t")
 		for len(f) < 5 {
 			f = append(f, "0")
@@ -618,11 +740,14 @@ func corrCounts(r *hx.Rng, nRandom int) {
 	}
 	var jobs []job
 	for _, c := range sel {
-		jobs = append(jobs, job{kind: "C", cfg: "R", data: c.data}, job{kind: "C", cfg: "S", data: c.data})
+		jobs = append(jobs, job{kind: "C", cfg: "R", data: c.data, grp: solveGroup(c)}, job{kind: "C", cfg: "S", data: c.data, grp: solveGroup(c)})
 	}
 	res := runJobs(jobs, nprocs())
 	for i, j := range jobs {
 		c := sel[i/2]
+		if res[i] == skipped {
+			continue
+		}
 		f := strings.Split(res[i], "\t")
 		for len(f) < 3 {
 			f = append(f, "-1")
@@ -640,9 +765,10 @@ func corrCounts(r *hx.Rng, nRandom int) {
 // registered box type with a zero body and a 32-bit word at each of the first offsets inflated
 func searchCounts(r *hx.Rng, n int, jobs *[]job, descs *[]string) {
 	for _, c := range countCases(true) {
-		*jobs = append(*jobs, job{kind: "X", cfg: "-", data: c.data})
+		*jobs = append(*jobs, job{kind: "X", cfg: "-", data: c.data, grp: solveGroup(c)})
 		*descs = append(*descs, "count-inflation:"+c.desc)
-		if len(c.data) <= 512 {
+		// (of the solved counts only those modulo 2^31 / 2^32 are also nested: the 16-bit ones stay at box level)
+		if len(c.data) <= 512 && !(strings.Contains(c.desc, solveMark) && strings.Contains(c.desc, "mod2^16")) {
 			nd := nestIn(c.data, c.nest)
 			cfgs := []string{"RN0", "SN0"}
 			switch c.nest {
@@ -652,7 +778,7 @@ func searchCounts(r *hx.Rng, n int, jobs *[]job, descs *[]string) {
 				cfgs = append(cfgs, "RL0", "RN2") // lazy mdat, start-segment-on-moof
 			}
 			for _, cfg := range cfgs {
-				*jobs = append(*jobs, job{kind: "P", cfg: cfg, data: nd})
+				*jobs = append(*jobs, job{kind: "P", cfg: cfg, data: nd, grp: solveGroup(c)})
 				*descs = append(*descs, "count-inflation-nested:"+c.desc+" cfg="+cfg)
 			}
 		}
@@ -712,6 +838,15 @@ func cmdCounts() {
 	}
 	cases := countCases(true)
 	fmt.Fprintf(out, "%d cases\n", len(cases))
+	if filter == "list" {
+		// descriptions (and the first bytes) of the cases whose description contains os.Args[3]
+		for _, c := range cases {
+			if len(os.Args) > 3 && strings.Contains(c.desc, os.Args[3]) {
+				fmt.Fprintf(out, "%s\t%s\n", c.desc, hx.Hex(c.data[:minInt(len(c.data), 48)]))
+			}
+		}
+		return
+	}
 	for _, c := range cases {
 		if !strings.Contains(c.desc, filter) {
 			continue
